@@ -217,6 +217,11 @@ pub fn pause() -> (isize, bool) {
     (live(), was)
 }
 
+/// After a panic unwound through a harness section: leave the paused state.
+pub fn unpause() {
+    PAUSED.with(|p| p.set(false));
+}
+
 /// Harness code ends; `handed` bytes of what it allocated now belong to the library.
 pub fn resume(token: (isize, bool), handed: isize) {
     let (l0, was) = token;
